@@ -179,6 +179,56 @@ def run(ctx):
             ctx.violation({"template": src, "context": kw, "rendered": out, "expected": want}, "a module= namespace exposes the module's callables bound to the current render's context",
                           tags=["c07.module." + tag])
 
+    # ---- spellings and corners of the namespace tag and of URIs (each was a defect repaired in /repo) ---------------------------
+    def _lk(files):
+        lk_ = TemplateLookup()
+        for u_, s_ in files.items():
+            lk_.put_string(u_, s_)
+        return lk_
+    DEFS = {"/d.html": '<%def name="a()">A</%def><%def name="b()">B</%def>'}
+    for files, main, kw, want, tag in [
+        # blanks and newlines around the names of an import= list
+        (dict(DEFS, **{"/m.html": '<%namespace file="/d.html" import=" a , b "/>${a()}${b()}'}), "/m.html", {}, "AB", "import-list-blanks"),
+        (dict(DEFS, **{"/m.html": '<%namespace file="/d.html" import="\n  a,\n  b\n"/>${a()}${b()}'}), "/m.html", {}, "AB", "import-list-newlines"),
+        # a def written inside a <%namespace> tag, after a namespace that imports names
+        (dict(DEFS, **{"/m.html": '<%namespace file="/d.html" import="a"/><%namespace name="inl"><%def name="x()">X${who}</%def></%namespace>${a()}${inl.x()}'}), "/m.html", {"who": 1}, "AX1", "inline-def-after-import"),
+        # import="*" on a module= namespace: a def written inside the tag wins over the module's function of that name
+        ({"/m.html": '<%namespace name="m" module="harness.c07_module" import="*"><%def name="who()">inline</%def></%namespace>${who()}|${m.who()}'}, "/m.html", {"who": "W"}, "inline|inline", "module-star-inline-first"),
+        # <%include args> may carry page arguments of any name
+        ({"/i.html": '<%page args="uri, calling_uri=0"/>[${uri}${calling_uri}]', "/m.html": '<%include file="/i.html" args="uri=5, calling_uri=6"/>'}, "/m.html", {}, "[56]", "include-args-named-uri"),
+    ]:
+        ctx.evaluations += 1
+        try:
+            out = _lk(files).get_template(main).render(**kw)
+        except Exception as e:  # noqa
+            out = "raised %s: %s" % (type(e).__name__, str(e)[:80])
+        if out != want:
+            ctx.violation({"templates": files, "context": kw, "rendered": out, "expected": want}, "namespace / include corner", tags=["c07.corner." + tag])
+    # an empty URI is unresolvable like any other
+    for what, fn in [("include", lambda: _lk({"/m.html": '<%include file=""/>'}).get_template("/m.html").render()),
+                     ("inherit", lambda: _lk({"/m.html": '<%inherit file=""/>x'}).get_template("/m.html").render()),
+                     ("namespace", lambda: _lk({"/m.html": '<%namespace name="n" file=""/>${n.x()}'}).get_template("/m.html").render()),
+                     ("get_template", lambda: _lk({}).get_template("")), ("adjust_uri", lambda: _lk({}).get_template(_lk({}).adjust_uri("", "/a/b.html")))]:
+        ctx.evaluations += 1
+        try:
+            fn()
+            res = "no exception"
+        except exceptions.TemplateLookupException:
+            res = "ok"
+        except Exception as e:  # noqa
+            res = type(e).__name__
+        if res != "ok":
+            ctx.violation({"where": what, "result": res}, "an empty URI must raise TemplateLookupException", tags=["c07.uri.unresolvable.empty"])
+    # a namespace that has no template of its own (module=) resolves relative URIs against the template that wrote the tag
+    ctx.evaluations += 1
+    try:
+        out = _lk({"/sub/m.html": '<%namespace name="m" module="harness.c07_module"/>${m.get_template("peer.html").render()}|<% m.include_file("peer.html") %>|${m.get_namespace("peer.html").p()}',
+                   "/sub/peer.html": '<%def name="p()">P</%def>peer', "/peer.html": '<%def name="p()">root-P</%def>root-peer'}).get_template("/sub/m.html").render()
+    except Exception as e:  # noqa
+        out = "raised %s: %s" % (type(e).__name__, str(e)[:80])
+    if out != "peer|peer|P":
+        ctx.violation({"rendered": out, "expected": "peer|peer|P"}, "a relative URI given to a module= namespace resolves against the template that declares it", tags=["c07.corner.module-namespace-relative-uri"])
+
     # ---- inheritable namespaces are reachable from self in derived templates ----------------------------------------------
     ctx.evaluations += 1
     lk = TemplateLookup()
